@@ -739,6 +739,33 @@ class Weaver:
         for bar in bars:
             self.ed.add(st[bar].a, st[bar].b, " " + body + "\n", "R11")
 
+    # ---- R10: slice-literal concat ----------------------------------------------------------------
+    def r10_concat(self):
+        """`[e1, .., en].concat()` -> `concat_n(e1, .., en)` (n = 2 or 3)"""
+        st = self.st
+        n = 0
+        i = 0
+        while i < len(st) - 4:
+            if st[i].s == "[":
+                k = match_close(st, i)
+                if k + 4 < len(st) + 1 and [t.s for t in st[k + 1:k + 5]] == [".", "concat", "(", ")"]:
+                    # count top-level elements
+                    elems = 1; j = i + 1; last = None
+                    while j < k:
+                        if st[j].s in OPEN: j = match_close(st, j) + 1; continue
+                        if st[j].s == ",":
+                            if j + 1 < k: elems += 1
+                            else: last = j
+                        j += 1
+                    self.ed.add(st[i].a, st[i].b, "concat%d(" % elems, "R10")
+                    if last is not None:
+                        self.ed.add(st[last].a, st[last].b, "", "R10")
+                    self.ed.add(st[k].a, st[k + 4].b, ")", "R10")
+                    n += 1
+                    i = k + 5; continue
+            i += 1
+        return n
+
     # ---- R9: drop tail -------------------------------------------------------------------------
     def r9_drop_tail(self, seq, k, replacement):
         """statements after the statement containing the anchor are replaced by `replacement`"""
